@@ -326,9 +326,9 @@ def _j(x):
 
 def _brief_ev(e):
     t = e['type'].split('.')[-1]
-    if 'text' in e:
+    if e.get('text') is not None:
         return t + ':' + e['text']
-    if 'bytes' in e:
+    if e.get('bytes') is not None:
         return t + ':b' + e['bytes'].decode()
     if 'code' in e:
         return t + ':%s' % e['code']
